@@ -40,12 +40,17 @@ fn main() {
     }
     // panics of the code under test are caught and reported as data; keep stderr quiet
     std::panic::set_hook(Box::new(|_| {}));
+    if a.extra.iter().any(|x| x == "--worker") {
+        gen::worker::worker_main();
+        return;
+    }
     match prop.as_str() {
         "C19" => props::c19::run(&a),
         "C17" => props::c17::run(&a),
         "C03" => props::c03::run(&a),
         "C16" => props::c03::run_prop(&a, "C16", 16),
         "C01" => props::c01::run(&a),
+        "C04" => props::c01::run_prop(&a, "C04", 4),
         "C09" => props::c09::run(&a),
         "C11" => props::c11::run(&a),
         "C12" => props::c12::run(&a),
